@@ -544,7 +544,7 @@ def gen_C10(rng, tier):
         rng.shuffle(got)
         pool += got[:(40 if tier == 'quick' else 300)]
     for q in pool:
-        if len(q.lines) > 120:
+        if len(q.lines) > 120 or any(l.startswith('par') for l in q.lines):
             continue
         p = Prog('c10_i_' + q.name)
         bound = []
@@ -552,7 +552,7 @@ def gen_C10(rng, tier):
             p.add(ln)
             toks = ln.split(' ')
             if len(toks) > 2 and toks[1] == '=' and toks[2] not in ('ints', 'ranges', 'tensors', 'data', 'init', 'fc', 'input', 'relu', 'sigmoid',
-                    'leaky', 'softmax', 'mse', 'bce', 'ce', 'accuracy', 'sgd', 'weight', 'shape') and not (toks[2] == 'tanh' and len(toks) == 3):
+                    'leaky', 'softmax', 'mse', 'bce', 'ce', 'accuracy', 'sgd', 'weight', 'shape', 'zero') and not (toks[2] == 'tanh' and len(toks) == 3):
                 if toks[0] not in bound: bound.append(toks[0])
             if toks[0] in ('obs', 'equals', 'nelems', 'at') or (len(toks) > 2 and toks[2] == 'tensorof'):
                 continue
